@@ -32,3 +32,41 @@ package types
 //@   requires params_small(p)
 //@   ensures 0 <= p.DegreeBits - arity_sum(p.ReductionArityBits, len(p.ReductionArityBits))
 //@   ensures res == pow2(p.DegreeBits - arity_sum(p.ReductionArityBits, len(p.ReductionArityBits)))
+
+// ------------------------------------------------------------------ configuration reading (C19, hiding refusal of C18)
+// `raw` is the structure encoding/json fills (json.Unmarshal itself is an assumed external: it may produce any value
+// of the Go type); the contract pins every field of the result to the field of `raw` at the corresponding position.
+//@ def sameU64s(a, b) = len(a) == len(b) && forall(k, 0, len(a), a[k] == b[k])
+
+//@ func ReadCommonCircuitData(path string) (res CommonCircuitData)
+//@   props C19 C18
+//@   plain
+//@   ghost raw CommonCircuitDataRaw
+//@   ensures !raw.FriParams.Hiding
+//@   ensures res.Config.NumWires == raw.Config.NumWires && res.Config.NumRoutedWires == raw.Config.NumRoutedWires && res.Config.NumConstants == raw.Config.NumConstants
+//@   ensures res.Config.UseBaseArithmeticGate == raw.Config.UseBaseArithmeticGate && res.Config.SecurityBits == raw.Config.SecurityBits && res.Config.NumChallenges == raw.Config.NumChallenges
+//@   ensures res.Config.ZeroKnowledge == raw.Config.ZeroKnowledge && res.Config.MaxQuotientDegreeFactor == raw.Config.MaxQuotientDegreeFactor
+//@   ensures res.Config.FriConfig.RateBits == raw.Config.FriConfig.RateBits && res.Config.FriConfig.CapHeight == raw.Config.FriConfig.CapHeight
+//@   ensures res.Config.FriConfig.ProofOfWorkBits == raw.Config.FriConfig.ProofOfWorkBits && res.Config.FriConfig.NumQueryRounds == raw.Config.FriConfig.NumQueryRounds
+//@   ensures res.FriParams.DegreeBits == raw.FriParams.DegreeBits && res.DegreeBits == raw.FriParams.DegreeBits
+//@   ensures res.FriParams.Config.RateBits == raw.FriParams.Config.RateBits && res.FriParams.Config.CapHeight == raw.FriParams.Config.CapHeight
+//@   ensures res.FriParams.Config.ProofOfWorkBits == raw.FriParams.Config.ProofOfWorkBits && res.FriParams.Config.NumQueryRounds == raw.FriParams.Config.NumQueryRounds
+//@   ensures sameU64s(res.FriParams.ReductionArityBits, raw.FriParams.ReductionArityBits)
+//@   ensures len(res.GateIds) == len(raw.Gates) && forall(k, 0, len(raw.Gates), res.GateIds[k] == raw.Gates[k])
+//@   ensures sameU64s(res.SelectorsInfo.selectorIndices, raw.SelectorsInfo.SelectorIndices)
+//@   ensures len(res.SelectorsInfo.groups) == len(raw.SelectorsInfo.Groups)
+//@   ensures forall(k, 0, len(raw.SelectorsInfo.Groups), res.SelectorsInfo.groups[k].start == raw.SelectorsInfo.Groups[k].Start && res.SelectorsInfo.groups[k].end == raw.SelectorsInfo.Groups[k].End)
+//@   ensures res.QuotientDegreeFactor == raw.QuotientDegreeFactor && res.NumGateConstraints == raw.NumGateConstraints && res.NumConstants == raw.NumConstants
+//@   ensures res.NumPublicInputs == raw.NumPublicInputs && res.NumPartialProducts == raw.NumPartialProducts
+//@   ensures sameU64s(res.KIs, raw.KIs)
+//@   loop 0 invariant -1 <= rangeindex && rangeindex < len(raw.SelectorsInfo.Groups) && len(selectorGroupStart) == rangeindex + 1 && len(selectorGroupEnd) == rangeindex + 1 &&
+//@        forall(k, 0, rangeindex + 1, selectorGroupStart[k] == raw.SelectorsInfo.Groups[k].Start && selectorGroupEnd[k] == raw.SelectorsInfo.Groups[k].End)
+
+// the sibling list of a Merkle proof object is copied element by element (the decoding of the object itself is
+// encoding/json's)
+//@ func (m *MerkleProofRaw) UnmarshalJSON(data []byte) (err error)
+//@   props C19
+//@   plain
+//@   ghost siblings struct{Siblings []string}
+//@   ensures isnil(err)
+//@   ensures len(m.Hash) == len(siblings.Siblings) && forall(k, 0, len(m.Hash), m.Hash[k] == siblings.Siblings[k])
